@@ -44,7 +44,7 @@ def WFS : SVal → Prop
   | .raw b => b.length ≤ rawValueMaxSize
   | .void => True
   | .list xs => xs.length ≤ listValueMaxSize ∧ WFSList xs
-  | .opq t v => C09.WF t ∧ Plain t ∧ Typed t v ∧ ¬ IsTableKey (print t) ∧ (print t).length ≤ maxStringSize
+  | .opq t v => C09.WF t ∧ Plain t ∧ Typed t v ∧ ¬ IsTableKey (print t) ∧ SigFits t
 def WFSList : List SVal → Prop
   | [] => True
   | x :: r => WFS x ∧ WFSList r
@@ -78,13 +78,13 @@ theorem plain_not_o (t : Ty) (h : Plain t) : print t ≠ [111] := by
   | struct n ms => rw [C09.print_struct]; simp
 
 /-- `newOpaque` on the encoding of a typed datum -/
-theorem readOpaque_ok (t : Ty) (v : TVal) (hwf : C09.WF t) (hp : Plain t) (ht : Typed t v) (f : Nat)
+theorem readOpaque_ok (t : Ty) (v : TVal) (hwf : C09.WF t) (hp : Plain t) (ht : Typed t v) (hd : C09.nest t ≤ maxDepth) (f : Nat)
     (hf : vneed v ≤ f) (rest : Bytes) :
     readOpaque f (print t) (D t v ++ rest) = .ok (.opaque (print t) (D t v), rest) := by
   have hno : (print t == [111]) = false := by
     have := plain_not_o t hp
     simpa using this
-  simp [readOpaque, hno, C09.print_parse t hwf, rt v t ht f rest hf]
+  simp [readOpaque, hno, C09.print_parse t hwf hd, rt v t ht f rest hf]
 
 mutual
 /-- **Round trip.** `NewValue` on the encoding of a well-formed value followed by anything
@@ -145,8 +145,8 @@ theorem val_rt : (s : SVal) → WFS s → ∀ f rest, sneed s ≤ f →
     obtain ⟨k, rfl⟩ : ∃ k, f = k + 1 := ⟨f - 1, by simp [sneed] at hf; omega⟩
     obtain ⟨hwf, hp, ht, hkey, hlen⟩ := h
     have hk : vneed v ≤ k := by simp [sneed] at hf; omega
-    have hs := readString_ws (print t) (D t v ++ rest) hlen
-    have ho := readOpaque_ok t v hwf hp ht k hk rest
+    have hs := readString_ws (print t) (D t v ++ rest) hlen.1
+    have ho := readOpaque_ok t v hwf hp ht hlen.2 k hk rest
     simp only [toVal, writeVal, List.append_assoc, readVal, hs]
     -- the signature is not one of the table's keys: every branch ends in `readOpaque`
     split
@@ -254,7 +254,7 @@ theorem print_composite_not_key (t : Ty) (h : ∀ c, t ≠ .basic c) (h2 : t ≠
 
 /-- everything `Typed` says about a dynamic value, as one proposition -/
 def DynOK (t : Ty) (v : TVal) : Prop :=
-  C09.WF t ∧ Plain t ∧ t ≠ .basic 109 ∧ (print t).length ≤ maxStringSize ∧ Typed t v
+  C09.WF t ∧ Plain t ∧ t ≠ .basic 109 ∧ SigFits t ∧ Typed t v
 
 theorem typed_dyn (c : UInt8) (t : Ty) (v : TVal) (h : Typed (.basic c) (.dyn t v)) : c = 109 ∧ DynOK t v := by
   simp only [Typed] at h
